@@ -247,7 +247,7 @@ pub fn worker(prop: &str, seed: u64, tier: &str, from: u64, to: u64, stride: u64
                         class: class.clone(),
                         detail: detail2.clone(),
                         minimised: true,
-                        schedule_controlled: true,
+                        schedule_controlled: !class.ends_with("uncontrolled"),
                         case: min,
                     });
                     agg.violations.push(ViolationRec {
@@ -541,8 +541,26 @@ pub fn check(opts: &CheckOpts) -> i32 {
     // confirm every violation by replaying its file in a fresh process
     let mut confirmed: Vec<ViolationRec> = vec![];
     for v in &agg.violations {
-        let (ok, desc) = replay_fresh(&v.replay, Duration::from_secs(opts.stall_secs.min(60)), opts.mem_cap);
+        let uncontrolled = v.class.ends_with("uncontrolled");
+        let mut ok = false;
+        let mut desc = String::new();
+        for _ in 0..(if uncontrolled { 5 } else { 1 }) {
+            let (o, d) = replay_fresh(&v.replay, Duration::from_secs(opts.stall_secs.min(60)), opts.mem_cap);
+            ok = o;
+            desc = d;
+            if ok {
+                break;
+            }
+        }
         if ok {
+            confirmed.push(v.clone());
+        } else if uncontrolled {
+            // real threads: the oracle (equality with the deterministic reference) is schedule-independent, so the
+            // violation is real even though this schedule cannot be replayed exactly
+            println!(
+                "note: violation in run {} (class {}) was observed on real threads and did not recur in 5 replays of {}",
+                v.run, v.class, v.replay
+            );
             confirmed.push(v.clone());
         } else {
             harness_errors.push(format!(
